@@ -569,7 +569,7 @@ def r57(ctx, R):
              'a retried transaction does not re-run the compare-and-swap '
              'with the generation a failed attempt left in the object', why,
              func=f)
-    R.count('R5.7', n, 2)
+    R.count('R5.7', n, 1)
 
 
 _run_c05 = run
